@@ -58,6 +58,10 @@ pub struct GenCfg {
     pub reorder: bool,
     /// multi-line strings allowed
     pub allow_ml: bool,
+    /// a `[sub.table]` header may come before its `[sub]` super-table's header
+    pub sub_before_super: bool,
+    /// tables created by dotted keys may have `[header]` / `[[header]]` children
+    pub sections_under_dotted: bool,
 }
 
 impl Default for GenCfg {
@@ -75,6 +79,8 @@ impl Default for GenCfg {
             mark_every_line: false,
             reorder: true,
             allow_ml: true,
+            sub_before_super: true,
+            sections_under_dotted: true,
         }
     }
 }
@@ -223,7 +229,8 @@ impl G<'_, '_> {
         for i in 0..n {
             let Some(k) = self.key(&entries) else { continue };
             let node = if i > 0 && depth < self.cfg.max_depth && self.budget > 0 {
-                match self.t.weighted(&[10, 3, if body_ctx { 2 } else { 0 }, if body_ctx { 1 } else { 0 }]) {
+                let sec = body_ctx && self.cfg.sections_under_dotted;
+                match self.t.weighted(&[10, 3, if sec { 2 } else { 0 }, if sec { 1 } else { 0 }]) {
                     0 => self.value(depth),
                     1 => GNode::Table(self.dotted(depth + 1, body_ctx)),
                     2 => GNode::Table(self.header_table(depth + 1, Layout::Header)),
@@ -384,6 +391,7 @@ fn collect_lines<'g>(
 struct Planner<'a, 't> {
     t: &'a mut Tape<'t>,
     reorder: bool,
+    sub_before_super: bool,
 }
 
 impl<'a, 't> Planner<'a, 't> {
@@ -477,7 +485,7 @@ impl<'a, 't> Planner<'a, 't> {
         self.child_lists(t, p, h, false, &mut free, &mut bound);
         let mut chain = vec![own];
         chain.extend(self.merge(bound));
-        if self.reorder && !free.is_empty() && self.t.chance(1, 4) {
+        if self.reorder && self.sub_before_super && !free.is_empty() && self.t.chance(1, 4) {
             // sub-tables may come before their super-table
             let mut lists = vec![chain];
             lists.extend(free);
@@ -942,7 +950,7 @@ pub fn render(tree: &GTable, t: &mut Tape, cfg: &GenCfg) -> Rendered {
     let mut root_lines = vec![];
     collect_lines(tree, &root_path, &mut vec![], &mut root_lines);
     let sec_list = {
-        let mut pl = Planner { t, reorder: cfg.reorder };
+        let mut pl = Planner { t, reorder: cfg.reorder, sub_before_super: cfg.sub_before_super };
         let mut free = vec![];
         let mut bound = vec![];
         pl.child_lists(tree, &root_path, &vec![], false, &mut free, &mut bound);
